@@ -473,8 +473,9 @@ reg("C13", "exploration",
     "that distance; the contact position must lie between the two surfaces; mj_geomDistance is called in both argument orders and compared "
     "with itself, the contact and the reference.",
     "dist <= margin+gap (documented detection distance); in multi-contact manifolds only the deepest contact is compared; degenerate "
-    "axis-aligned sphere centres skipped and counted; pairs without a closed form get the universal invariants only. Seven open known "
-    "findings (capsule-capsule parallel branch, capsule-box interior/threshold/bestdist, plane-capsule frame, box-box within margin, two CCD mechanisms).",
+    "axis-aligned sphere centres skipped and counted; pairs without a closed form get the universal invariants only. Open known findings "
+    "(capsule-capsule parallel branch, capsule-box interior/threshold/bestdist, plane-capsule frame, box-box SAT axis within margin, CCD "
+    "coincident centres / touching) are relabelled only after a per-violation confirmation of the mechanism (vf/ref/mechanisms.py); explicit signatures.",
     "reference-model oracle (closed-form geometry, self-tested) over the real collision functions")
 
 reg("C15", "exploration",
@@ -484,8 +485,9 @@ reg("C15", "exploration",
     "depth for polytope cores) within max(10 ccd_tolerance, 1e-6 size), the two orders must agree, and the reported direction must realise "
     "the reported distance.",
     "The libccd comparison clause is not decidable in this build (library absent; native CCD is the only path). A mismatch that disappears "
-    "at 10x ccd_iterations is skipped and counted (<2%). Four open known findings (coincident centres, boundary-simplex EPA start, "
-    "cylinder cap on parallel face, rare EPA face violating its own stopping rule - rate-guarded).",
+    "at 10x ccd_iterations is skipped and counted (<2%). For penetrating curved or margin-rounded pairs the direction test is evidence only "
+    "(the statement covers distance and swap symmetry). Open known findings (coincident centres, EPA started from a touching simplex, cylinder "
+    "cap exactly parallel to a facet) are relabelled only after a per-violation counterfactual confirmation; explicit signatures.",
     "certified convex-optimisation reference with primal/dual bounds over the real narrow phase")
 
 reg("C35", "exploration",
@@ -511,3 +513,33 @@ reg("C36", "exploration",
     "pass almost vacuously; trajectories run with constraints disabled. Open known findings: fusestatic stale site ids, fusestatic "
     "camera/light pose reset, fusestatic with differing gravcomp, replicate with multi-axis euler.",
     "metamorphic rewrites + name-matched twin compilation + perturbation-normalised trajectory comparison")
+
+reg("C43", "exploration",
+    "Differential testing of the repository's MJX (loaded on top of the installed binding, every mjx module asserted to come from /repo) "
+    "against the C engine on the identical MjModel: random models straddling MJX's documented feature lattice, one jit of forward + step, "
+    "field-by-field comparison with contacts and constraint rows compared as sets; closed-form quantities to 1e-6 and solver-dependent ones "
+    "to 1e-4 in float64 (2e-3 / 3e-2 in float32). Any unexplained difference is re-run on the library built from the tree (rel flavour): "
+    "if the tree's engine agrees with MJX the case is version skew of the 3.13.0 wheel and is counted, not judged.",
+    "The verdict oracle is the installed binding's engine (MJX only accepts its MjModel); the tree's engine is the tie-breaker. put_model's "
+    "NotImplementedError (documented feature parity) is counted; contact-set equality is judged only for the pair types MJX implements "
+    "analytically; tangent frames are not specified by the documentation. Open known findings are listed in known_findings.json (13 mechanisms).",
+    "differential testing against a reference engine with version-skew triage")
+
+reg("C44", "exploration",
+    "API twin execution and metamorphic relations on the repository's MJX: state_size/get_state/set_state vs mj_stateSize/mj_getState/"
+    "mj_setState for the 14 single bits, the named composites and random signatures, with a set-state twin and a get-after-set identity; "
+    "make_data (from MjModel and from mjx.Model) vs put_data of a fresh MjData leaf by leaf (shape, dtype, value); get_data(put_data(d)) vs "
+    "d (sparse fields through their dense form, contacts/rows as sets); jit vs un-jitted evaluation and jit(vmap) over batches of 1, 2, 7 vs "
+    "per-sample results at 1e-9.",
+    "Un-jitted step (op-by-op dispatch, ~100 s per model) is in the thorough tier only. Two open known findings (contact.geom dtype under x64; "
+    "get_data writes ten_J compacted instead of in the model's sparsity layout).",
+    "API twin execution + metamorphic jit/vmap relations")
+
+reg("C45", "exploration",
+    "Derivative checking of the repository's MJX: six linear functionals (one per output group of step) are differentiated w.r.t. a tangent "
+    "displacement of qpos, qvel, ctrl, act, ten model parameters and gravity by jax.jvp (one random direction per variable class) and, for "
+    "models without constraint rows, one reverse pass; the oracle is the central finite difference of the same jitted function in float64 at "
+    "two step sizes; a direction is judged only if the two step sizes and the one-sided differences agree (otherwise skipped and counted).",
+    "The tangent map is the harness's own quaternion map. The solver's while_loop is forward-only (documented JAX limitation). Three open known "
+    "findings (norm where-trick zero gradient at rest, tendon deadband strict comparisons, NaN reverse gradient through sphere/cylinder wraps).",
+    "derivative checking against finite differences of the same compiled function")
